@@ -68,8 +68,11 @@ func (im indexManager) Dispatch(
 				// abort the entire operation
 				wg.Add(1)
 				go func() {
-					if err := <-drainErrC; err != nil {
-						cancel(err)
+					// The channel closes once every stage of the index has exited
+					for err := range drainErrC {
+						if err != nil {
+							cancel(err)
+						}
 					}
 					wg.Done()
 				}()
@@ -162,6 +165,7 @@ func (im indexManager) getDrainFn(bucketName string, params models.IndexSchemaVa
 					flatIndex.UpdateBucket(bucket)
 					return <-flatIndex.InsertUpdateDelete(ctx, out)
 				})
+				close(writeErrC)
 			}()
 			return utils.MergeErrorsWithContext(ctx, transformErrC, writeErrC)
 		}
